@@ -449,7 +449,8 @@ Section InterpFacts.
 
   Lemma construct_full_grows : forall c sch m h h' res, construct_full W rec c sch m h = (h', res) -> grows h h'.
   Proof.
-    unfold construct_full, bindv. intros c sch m h h' res H.
+    unfold construct_full, bindv. intros c sch m0 h h' res H.
+    destruct (merge_custom h m0) as [m|]; [|leaf].
     destruct (construct_body W rec c sch m h) as [h1 r1] eqn:Eb.
     assert (G1 := construct_body_grows _ _ _ _ _ _ Eb).
     destruct r1 as [ov| |]; try leaf.
